@@ -713,6 +713,37 @@ def r9(ctx):
              key='container-model', witness=wit, what='FeatureContainer: a query returns something other than the overlapping / containing features of the current state')
 
 
+@rule('C16', 'C16-R10', 'the per-base annotation asks the container about every aligned base: in the loop over the aligned pairs of a read the point lookup is made for each pair, at the '
+                        'reference position of that pair - hits of an earlier base are not carried over (a feature that starts inside another one is found only by asking at its own bases)')
+def r10(ctx):
+    from ..util import reach_conds
+    from .shared import MOL_FEAT
+    try:
+        f = ctx.fn(MOL_FEAT, 'FeatureAnnotatedMolecule.annotate')
+    except AnalysisError:
+        ctx.emit('C16-R10', True, MOL_FEAT, None, 'no per-base annotation method', key='per-base-lookup', nontrivial=False)
+        return
+    loops = [l for l in ast.walk(f) if isinstance(l, ast.For) and isinstance(l.iter, ast.Call) and isinstance(l.iter.func, ast.Attribute) and l.iter.func.attr == 'get_aligned_pairs']
+    n = 0
+    for k, l in enumerate(loops):
+        calls = [c for c in ast.walk(l) if isinstance(c, ast.Call) and isinstance(c.func, ast.Attribute) and c.func.attr in ('findFeaturesAt', '_findFeaturesAt')]
+        if not calls:
+            continue
+        n += 1
+        tnames = {x.id for x in ast.walk(l.target) if isinstance(x, ast.Name)}
+        c = calls[0]
+        conds = reach_conds(l.body, c) or []
+        coord = [a for a in list(c.args) + [kw.value for kw in c.keywords if kw.arg in ('lookupCoordinate', 'coordinate', 'pos')] if isinstance(a, ast.Name) and a.id in tnames]
+        ok = not conds and bool(coord)
+        ctx.emit('C16-R10', ok, MOL_FEAT, c, 'the point lookup is made for every aligned pair, at its reference position' if ok else
+                 (f'the point lookup is skipped under `{src(conds[0][0])[:60]}`: bases for which it is skipped inherit the hits of an earlier base, a feature starting inside the current one is never found'
+                  if conds else 'the point lookup is not made at the reference position of the pair'), key=f'per-base-lookup:{k}',
+                 witness={'features': ['outer 100-200', 'nested 120-130'], 'read': 'covers 100-150', 'found': ['outer']} if not ok else None,
+                 what='FeatureAnnotatedMolecule.annotate: the per-base lookup is not made for every aligned base')
+    if not n:
+        ctx.emit('C16-R10', True, MOL_FEAT, f, 'no per-base lookup loop in annotate', key='per-base-lookup', nontrivial=False)
+
+
 META = {
     'text': ('Decides the history clause: for every method of FeatureContainer that writes a field which a functools-memoised '
              'lookup (findFeaturesAt, findNearestFeature; computed, not listed) transitively reads, the lookup\'s cache is cleared '
